@@ -77,20 +77,27 @@ def generate(rng, n, tier):
             specs[name] = spec
             init.append({'key': name, 'spec': spec})
         ops = []
+        dead = []
         counter = len(init)
         for _ in range(rng.randrange(1, 8)):
             live = [c for c, s in cells.items() if s == 'agents']
             anyc = list(cells)
             r = rng.random()
             if r < 0.35 or not anyc:
-                name = f'c{counter}'
-                counter += 1
+                if dead and rng.random() < 0.4:
+                    name = rng.choice(dead)      # a new compartment at a path that was deleted earlier
+                    dead.remove(name)
+                else:
+                    name = f'c{counter}'
+                    counter += 1
                 specs[name] = gen_cell(rng)
                 ops.append({'op': 'generate', 'key': name, 'spec': specs[name]})
                 cells[name] = 'agents'
             elif r < 0.55:
                 c = rng.choice(anyc)
                 ops.append({'op': 'delete', 'store': cells[c], 'key': c})
+                if cells[c] == 'agents':
+                    dead.append(c)
                 del cells[c]
             elif r < 0.8 and live:
                 c = rng.choice(live)
@@ -514,39 +521,47 @@ def oracle(case, impl):
         if pub['topology_keys'] != pub['store_topology_keys']:
             fails.append(f'published: at {s["t"]} the published topology differs from the hierarchy')
             break
-    # lifetimes from the script: creation and deletion ticks of every cell
-    born, died = {}, {}
+    # lifetimes from the script: a compartment name may be used again after its deletion
+    lives = {}          # name -> list of [born, died or None]
     for c in case['init']:
-        born[c['key']] = 0
+        lives.setdefault(c['key'], []).append([0, None])
     for k, op in enumerate(case['ops']):
         t = k + 1
         if op['op'] == 'generate':
-            born[op['key']] = t
+            lives.setdefault(op['key'], []).append([t, None])
         elif op['op'] == 'delete':
-            died[op['key']] = t
+            if lives.get(op['key']):
+                lives[op['key']][-1][1] = t
         elif op['op'] == 'divide':
-            died[op['mother']] = t
+            if lives.get(op['mother']):
+                lives[op['mother']][-1][1] = t
             for d in op['daughters']:
-                born[d] = t
+                lives.setdefault(d, []).append([t, None])
     end = impl.get('gt', 0)
+
+    def life_at(cell, gt):
+        for b, d in lives.get(cell, []):
+            if b <= gt and (d is None or gt < d or d > end):
+                return b, d
+        return None
     first = {}
-    per = {}
     for ev in impl.get('log', []):
         if ev['e'] == 'invoke':
             cell = ev['id'].split('/')[0]
-            per.setdefault(ev['id'], []).append(ev['gt'])
-            first.setdefault(ev['id'], ev['start'] if ev.get('start') is not None else ev['gt'])
-            if cell in died and ev['gt'] >= died[cell] and died[cell] <= end:
-                fails.append(f'deleted-invoked: {ev["id"]} invoked at {ev["gt"]}, its compartment was deleted at {died[cell]}')
+            if cell not in lives:
+                continue
+            lf = life_at(cell, ev['gt'])
+            if lf is None:
+                fails.append(f'deleted-invoked: {ev["id"]} invoked at {ev["gt"]}, outside every lifetime '
+                             f'{lives[cell]} of its compartment')
                 break
-            if cell in born and ev['gt'] < born[cell]:
-                fails.append(f'early: {ev["id"]} invoked at {ev["gt"]} before its creation at {born[cell]}')
-                break
-    for pid, t0 in first.items():
-        cell = pid.split('/')[0]
-        if cell in born and born[cell] <= end and t0 != born[cell]:
-            fails.append(f'start: the first interval of {pid} starts at {t0}, it was created at {born[cell]}')
-            break
+            if ev['id'] not in first:
+                first[ev['id']] = True
+                start = ev['start'] if ev.get('start') is not None else ev['gt']
+                if lf[0] <= end and start != lf[0]:
+                    fails.append(f'start: the first interval of {ev["id"]} starts at {start}, it was created at {lf[0]}')
+                    break
+    died = {c: l[-1][1] for c, l in lives.items() if l[-1][1] is not None and len(l) == 1}
     # steps: once per phase while alive (a step created in a phase first runs in the next)
     runs = {}
     for ev in impl.get('log', []):
